@@ -97,6 +97,16 @@ def run(R):
         if not ok:
             R.viol("C02.scan.key", "scan-key", "the start-up scan does not decrypt a file under the key its own name encodes", sc, sc.lines[0])
         R.inst("C02.scan.key", "K6 flows-to", "file decrypted and indexed under the key decoded from its own file name", len(calls), ok)
+        # the entry produced is (that key, (address of that key, type of that record))
+        addr = ta.closure(call_results(["ant_protocol::NetworkAddress::from_record_key"])(sc))
+        fr = [b for b in sc.blocks if b["term"]["k"] == "call" and callee_matches(b["term"], ["ant_protocol::NetworkAddress::from_record_key"])]
+        oka = bool(fr) and all(op_local(b["term"]["args"][0]) in keys for b in fr)
+        rec = ta.closure({g.term(b["id"])["d"][0] for b in calls})
+        ty = [b for b in sc.blocks if b["term"]["k"] == "call" and callee_matches(b["term"], ["ant_protocol::storage::header::RecordHeader::is_record_of_type_chunk", "xor_name::XorName::from_content"])]
+        oka = oka and bool(ty) and all(op_local(b["term"]["args"][0]) in rec for b in ty)
+        if not oka:
+            R.viol("C02.scan.entry", "scan-entry", "the start-up scan does not index a file under (its key, the address of that key, the type of that record)", sc, sc.lines[0])
+        R.inst("C02.scan.entry", "K6 flows-to", "index entry = (key, (address_of(key), type_of(decrypted record)))", len(fr) + len(ty), oka)
 
     # (2c) a record file is always replaced whole (a shorter overwrite must not leave the old tail behind)
     from flow import backward_calls
